@@ -20,5 +20,8 @@ CLAIMS["C05"] = dict(
 CLAIMS["C11"] = dict(
     text="Proof over all real inputs (spending, unit cost, capacity constraint, saturation, number eligible, step size) that Program.get_capacity and Program.get_prop_covered return a capacity that is spending(*dt for one-off)/unit cost capped by the constraint, and a coverage in [0,1] that is capacity/eligible when unconstrained and below 1, 1 (or min(saturation,1)) when nobody is eligible, never above the saturation level, and monotone in spending/capacity (relational obligation over two executions); the caller's spending array is not modified.",
     note="REAL arithmetic; verified for arrays of length 1 with symbolic contents -- the step to any length assumes numpy ufuncs act element-wise; TimeSeries.interpolate/has_data/units are replaced by ghost values (assumed external contract); exp is uninterpreted with the axioms exp>0, exp(0)=1, monotone; +-inf handled by path splitting on the mask of np.divide; overwrite precedence in ProgramSet.get_* is not yet under contract")
+CLAIMS["C12"] = dict(
+    text="Complete proof, for each number of programs n and each of the three coverage interactions, over all coverage vectors in [0,1]^n and all real baselines and combination outcomes, that Covout.get_outcome returns baseline + sum of weight x combination outcome with weights that are non-negative, sum to at most 1 (rest on the empty combination) and have marginals equal to each program's coverage; baseline at zero coverage; baseline + c*delta for one program. The loops run over the concrete 2^n table and are unrolled; nested explores all n! orders. quick: n = 1..4, thorough: n = 1..5 (the property's whole range).",
+    note="REAL arithmetic; weights are read off as coefficients of the symbolic combination outcomes (the result is linear in them); the cache invariant 'outcome of the single-program combination {i} is its delta' is assumed (update_outcomes / the 'best' rule are not yet under contract); np.argsort is assumed to return some sorting permutation")
 NOT_APPLICABLE = {}
 NOTES = "Checks exit 0 (all obligations discharged), 1 (a registered obligation refuted: VIOLATION line, replay on real objects), 2 (undecided: unknown/unsupported, never reported as a violation), 3 (checker error: vacuity, zero obligations, internal error)."
